@@ -5,6 +5,7 @@ one extracted from the sources), and the recorded findings.
 -/
 import DefconModel.SettersCatalogue
 import DefconModel.NotifTables
+import DefconModel.NotifGetters
 
 namespace DefconModel
 namespace Setters
@@ -353,6 +354,71 @@ def payloadFindings : List String := ["Image.layerColorChanged"]
 /-- documented and never posted: nothing (finding F25, `Layer.GlyphsChanged`, was repaired in /repo: the class
 docstring no longer lists a notification that nothing posts) -/
 def neverPosted : List (String × String) := []
+
+/-! ## 5. The getter table (`NotifGetters.lean`) against the sources and the catalogue -/
+
+/-- the data keys under which defcon hands over old and new values (the extractor refuses any other key that
+starts with `old` / `new`: `harness/extract_notif.py`, "unrecognised old/new payload key") -/
+def valueKeys : List String := ["oldValue", "newValue", "oldName", "newName", "oldColor", "newColor"]
+
+def isValueKey (k : String) : Bool := decide (k ∈ valueKeys)
+
+/-- posting statements that hand over somebody else's data instead of building a dict: `Image.ColorChanged`
+re-posted from the layer's colour change (recorded finding F44) -/
+def forwardedSites : List (String × String) := [("Image", "layerColorChangedNotificationCallback")]
+
+/-- notifications that carry old/new values and are NOT attribute changes judged against a getter of the poster:
+the two callbacks by which a layer forwards a glyph's payload (judged by `forward_faithful` and with the glyph),
+and `ImageSet.FileNamesChanged`, posted once while an image set is filled from a UFO (`fileNames` "should not be
+set externally"; the setter asserts that the set is empty) -/
+def outsideTable : List String := ["Layer.GlyphNameChanged", "Layer.GlyphUnicodesChanged", "ImageSet.FileNamesChanged"]
+
+/-- the names a posting statement can post: the literal, or the value of the `*NotificationName` attribute in
+every class that inherits the statement -/
+def siteNames (t : Tables) (s : PostSite) : List String :=
+  match s.name with
+  | .lit n => [n]
+  | .attr a => (t.classes.filter (fun c => decide (s.cls ∈ t.mro 8 c.name))).filterMap (fun c => t.attrValue c.name a)
+
+/-- the data keys of a posting statement are the ones the getter table says: its old and new key are there, no
+other old / new value key is, and the key that names the item is there -/
+def keysOk (g : Getter) (ks : List String) : Bool :=
+  decide (g.oldKey ∈ ks) && decide (g.newKey ∈ ks) &&
+  ks.all (fun k => !isValueKey k || k == g.oldKey || k == g.newKey) &&
+  (match g.item with
+   | some i => decide (i ∈ ks)
+   | none => true)
+
+def siteOk (t : Tables) (s : PostSite) : Bool :=
+  (siteNames t s).all fun n =>
+    match getterOf n, s.keys with
+    | some g, some ks => keysOk g ks
+    | none, some ks => !(ks.any isValueKey) || decide (n ∈ outsideTable)
+    | _, none => decide ((s.cls, s.method) ∈ forwardedSites)
+
+/-- no dead rows: every notification of the getter table is posted by some statement of the sources -/
+def getterPosted (t : Tables) (g : Getter) : Bool := t.sites.any (fun s => decide (g.note ∈ siteNames t s))
+
+/-- a catalogue statement that posts old/new values judges them against the getter the table names -/
+def Atom.getterOk : Atom → Bool
+  | .post n _ _ o nw obs =>
+    (o.isNone && nw.isNone) ||
+    (match getterOf n with
+     | some g => decide (g.obs = obs)
+     | none => false)
+  | .when _ a => a.getterOk
+  | .nested a => a.getterOk
+  | _ => true
+
+def Stmt.getterOk : Stmt → Bool
+  | .atom a => a.getterOk
+  | .forEach _ _ _ _ body => body.all Atom.getterOk
+
+def entryGetterOk (e : Entry) : Bool := decide (e.id ∈ forwarders) || e.body.all Stmt.getterOk
+
+/-- will-notifications and the data key of their subject agree with the Will/Did pairs of section 1 -/
+def willTableOk : Bool :=
+  (willSubject.map (·.1) == pairs.map (·.1))
 
 end Setters
 end DefconModel
